@@ -30,6 +30,8 @@ RAW = [
  ("import-assign-through", "r = import(\"strings\").ToUpper(\"x\"); import(\"strings\").ToUpper = 7; f = func(pk) { pk.ToLower = 8 }; f(import(\"strings\")); p(r); return import(\"strings\").ToLower(\"Y\")"),
  ("addr-of-computed", "p1 = &(1 + 2); *p1 = 40; q = 1 + 2; p(q); x = 5; p2 = &(x * 2); *p2 = 41; p(x * 2); return 1 + 2"),
  ("addr-of-len", "a = [1, 2, 3]; p3 = &len(a); *p3 = 77; p(len(a)); p(len([4, 5, 6])); return 3"),
+ ("struct-map-field-fresh", "make(type S, make(struct { M map[string]int64, L []int64, C chan int64 })); a = make(S); n = len(a.M); a.M[\"k\"] = n; b = make(S); p(n); return [n, len(b.M), len(a.M)]"),
+ ("struct-nested-map-fresh", "make(type S2, make(struct { In struct { M map[string]int64 } })); a = make(S2); n = len(a.In.M); a.In.M[\"k\"] = 1; b = make(S2); return [n, len(b.In.M)]"),
  ("import-delete", "s = import(\"strings\"); t = import(\"strings\"); p(t.ToUpper(\"x\")); return s.ToUpper(\"y\")"),
  ("import-sort", "sort = import(\"sort\"); a = [3, 1, 2]; sort.Slice(a, func(i, j) { return a[i] < a[j] }); p(a); return a[0]"),
  ("varargs", "f = func(a, b...) { return len(b) + a }; p(f(1)); p(f(1, 2, 3)); x = [5, 6]; p(f(1, x...)); return f(0)"),
@@ -61,6 +63,19 @@ VARIANT = [
 ]
 
 
+# a copy of an environment is independent of it: (S0, A, B) -- B run in the base after S0 must not notice that A ran in a copy of the base
+ENVPAIRS = [
+ ("types", "make(type T, 1)", "make(type U, 2.5); x = 5; var y = 1", "r = 0; try { r = make(U) } catch e { r = \"undefined\" }; return [r, x ?? \"nox\", y ?? \"noy\", make(T)]"),
+ ("values", "x = 1; f = func() { return x }", "x = 9; z = 1; f = func() { return 7 }", "return [x, z ?? \"noz\", f()]"),
+ ("redefine-type", "make(type T, 1)", "make(type T, \"s\")", "return make(T)"),
+ ("delete", "x = 1; y = 2", "delete(\"x\"); delete(\"y\", true)", "return [x ?? \"nox\", y ?? \"noy\"]"),
+ ("module", "module m { a = 1 }", "module m2 { b = 2 }; m = 3", "return [m.a, m2 ?? \"nom2\"]"),     # (a module VALUE is shared by reference, like a map: only bindings are independent)
+ ("empty-base", "", "make(type U, 2.5); x = 5", "r = 0; try { r = make(U) } catch e { r = \"undefined\" }; return [r, x ?? \"nox\"]"),
+ ("after-empty", "x = 1; delete(\"x\")", "x = 5; make(type U, 1)", "r = 0; try { r = make(U) } catch e { r = \"undefined\" }; return [r, x ?? \"nox\"]"),
+]
+
+
 def cases():
     return ([{"id": "raw-" + n, "src": s} for n, s in RAW] +
-            [{"id": "raw-" + n, "src": s, "variants": ["int64", "float64", "string"]} for n, s in VARIANT])
+            [{"id": "raw-" + n, "src": s, "variants": ["int64", "float64", "string"]} for n, s in VARIANT] +
+            [{"id": "raw-envpair-%s-%s" % (n, how), "src": b, "pair": {"s0": s0, "a": a, "how": how}} for n, s0, a, b in ENVPAIRS for how in ("Copy", "DeepCopy")])
